@@ -1472,6 +1472,10 @@ def c08(tier, rng, rep, only=None):
             classes[cls] = classes.get(cls, 0) + 1
             payload = {"kind": "verdict", "decl": d.to_json(), "decl_rust": runner.decl_module(d, None), "features": feats,
                        "rustc": (dropped.get(d.id) or ["(compiles)"])[:3], "model": mv, "intended": getattr(d, "expect", None)}
+            if impl_rej and not m_rej and getattr(d, "hygiene_known", False):
+                rep.known_hit("sibling_item_shadows_name_used_by_expansion",
+                              "a user item named Option / Some / None / Ok / Err, a user trait named Debug / Clone / Into / Default, or a user module named core / std, next to the declaration is picked up by the unqualified names of the expansion")
+                continue
             if impl_rej != m_rej:
                 # the reference predicate decides which side is wrong
                 ref_says_ok = ref == "1"
